@@ -24,7 +24,9 @@ _SCPD = """<?xml version="1.0"?><scpd xmlns="urn:schemas-upnp-org:service-1-0"><
 
 def var_xml(decl: Dict[str, Any]) -> str:
     """decl: {"name", "type", "min"?, "max"?, "allowed"?: [..]}"""
-    out = f'<stateVariable sendEvents="yes"><name>{escape(decl["name"])}</name><dataType>{decl["type"]}</dataType>'
+    send = decl.get("send", "yes")      # "yes" | "no" | None (attribute absent): must make no difference to the NOTIFY path
+    attr = "" if send is None else f' sendEvents="{send}"'
+    out = f'<stateVariable{attr}><name>{escape(decl["name"])}</name><dataType>{decl["type"]}</dataType>'
     if decl.get("allowed"):
         out += "<allowedValueList>" + "".join(f"<allowedValue>{escape(a)}</allowedValue>" for a in decl["allowed"]) + "</allowedValueList>"
     if decl.get("min") is not None or decl.get("max") is not None:
@@ -50,6 +52,7 @@ class Requester:
         self.script: List[Any] = []
         self.default = ("resp", 500, None, None)
         self.park: Optional[Any] = None  # callable(method, url, headers) -> Future | None (C11)
+        self.probe: Optional[Any] = None   # callable(sid) -> index of the service routed for sid right now | None
         self.suspend = False             # answer after one trip round the event loop (the reaction is bound at request time)
         self.n = 0
 
@@ -63,7 +66,14 @@ class Requester:
                 return 200, {}, _DEV % "".join(_SVC.format(i=i) for i in range(len(self.svc_vars)))
             i = int(url.rsplit("/s", 1)[1].split(".")[0])
             return 200, {}, _SCPD % "".join(var_xml(d) for d in self.svc_vars[i])
-        entry = [method, url, dict(headers or {}), None]
+        entry = [method, url, dict(headers or {}), None, None]
+        if self.probe is not None:
+            hs = {k.upper(): v for k, v in (headers or {}).items()}
+            if "SID" in hs:
+                try:
+                    entry[4] = self.probe(hs["SID"])   # what the handler routes for this SID while the request is in flight
+                except Exception:  # noqa: BLE001
+                    entry[4] = 96
         self.log.append(entry)
         fut = self.park(method, url, headers) if self.park else None
         if fut is not None:
